@@ -25,13 +25,13 @@ ASSUMPTIONS = []
 
 HOSTILE = {
     "z": 0, "f0": 0.0, "neg": -3, "n": None, "t": True, "s": "abc", "e": "", "num": "12", "pct": "100%",
-    "fmt": "%(a)s", "pd": "%d", "l": [0, "7", None, [], {}, "x", 2.5, "true"], "el": [], "em": {},
+    "fmt": "%(a)s", "pd": "%d", "wide": "%99999999999d", "prec": "%.99999999999f", "l": [0, "7", None, [], {}, "x", 2.5, "true"], "el": [], "em": {},
     "m": {"a": "1", "b": "true", "c": None, 0: "5", 2.5: "FALSE", True: "x", None: "9"},
     0: "3", 1: ["4", "no"], 2.5: "false", None: "8", True: "TRUE", "big": 2**63 - 1, "digits": "9" * 400,
     "inf": "inf", "ninf": "-Infinity", "huge": "1e999", "nan": "nan", "{x}": "{y}", "${HOME}": 1,
     "deep": {"a": {"b": {"c": "7", "d": ["1", "t", {"e": "true"}]}}},
 }
-HOSTILE_LIST = ["3", 0, None, "true", ["5", "x", 0], {"a": "1", 0: "2", None: "3"}, "", 2.5, "100%", [], {}]
+HOSTILE_LIST = ["%99999999999d", "3", 0, None, "true", ["5", "x", 0], {"a": "1", 0: "2", None: "3"}, "", 2.5, "100%", [], {}]
 
 
 def _value_pairs():
